@@ -898,9 +898,9 @@ func (t *Typechecker) checkFieldAccess(Lhs *ast.Ident, originalType ddptypes.Typ
 	}
 
 	// if the type was imported, check for public/private fields
-	if structDecl, exists, _ := t.CurrentTable.LookupDecl(structType.Name); exists {
-		structDecl := structDecl.(*ast.StructDecl)
-		if structDecl.Mod != t.Module {
+	if decl, exists, _ := t.CurrentTable.LookupDecl(structType.Name); exists {
+		// the name may be shadowed by a declaration that is not the Kombination (e.g. a variable of the same name)
+		if structDecl, isStructDecl := decl.(*ast.StructDecl); isStructDecl && structDecl.Mod != t.Module {
 			for _, field := range structDecl.Fields {
 				if field.Name() == Lhs.Literal.Literal {
 					if field, ok := field.(*ast.VarDecl); ok && !field.IsPublic {
